@@ -63,6 +63,9 @@ type LSpec struct {
 	Convs []LConv `json:"convs"`
 	// UserPkgs: directory → package name of a pre-existing user package (a doc.go).
 	UserPkgs map[string]string `json:"user_pkgs,omitempty"`
+	// TestOnlyPkgs: directories of UserPkgs whose only file is a _test.go file (the go command
+	// still names the package after it).
+	TestOnlyPkgs map[string]bool `json:"test_only_pkgs,omitempty"`
 	// UserPkgUses: directory → identifier the pre-existing user package refers to before it
 	// is generated (bootstrap: the package has type errors until goverter has run).
 	UserPkgUses map[string]string `json:"user_pkg_uses,omitempty"`
@@ -329,6 +332,10 @@ func (s *LSpec) render() map[string]string {
 	}
 	sort.Strings(dirs)
 	for _, d := range dirs {
+		if s.TestOnlyPkgs[d] {
+			files[path.Join(d, "only_test.go")] = fmt.Sprintf("package %s\n\nimport \"testing\"\n\nfunc TestNothing(t *testing.T) {}\n", s.UserPkgs[d])
+			continue
+		}
 		files[path.Join(d, "doc.go")] = fmt.Sprintf("// Package %s is a pre-existing user package.\npackage %s\n\nconst Marker%s = 1\n", s.UserPkgs[d], s.UserPkgs[d], strings.Title(normPkgName(d)))
 		if id, ok := s.UserPkgUses[d]; ok {
 			files[path.Join(d, "doc.go")] += "\n// refers to generated code that does not exist before the first run\nvar _ = &" + id + "{}\n"
@@ -389,6 +396,10 @@ func (s *LSpec) renderConv(b *strings.Builder, c *LConv) {
 	}
 	if c.Defect == "directive" {
 		lines = append(lines, "// goverter:thisSettingDoesNotExist yes")
+	}
+	if c.Defect == "extendlist" {
+		// several names in one extend setting, a defective one that is not the last
+		lines = append(lines, "// goverter:extend NoSuchFunction"+n+" strconv:Itoa")
 	}
 	in, out := "In"+n, "Out"+n
 	outT := out
@@ -931,6 +942,15 @@ func CoverageSpecs() []*LSpec {
 					v := s.Clone()
 					v.Convs = []LConv{{Dir: "svc/conv", File: "conv.go", Kind: "variables", Name: "Xv", OutFile: of, Version: 1}}
 					out = append(out, v)
+				}
+				if pk == 0 && us == 2 && len(s.UserPkgs) > 0 {
+					// the existing package consists of a _test.go file only
+					l := s.Clone()
+					l.TestOnlyPkgs = map[string]bool{}
+					for d := range l.UserPkgs {
+						l.TestOnlyPkgs[d] = true
+					}
+					out = append(out, l)
 				}
 				if pk == 0 && us == 1 {
 					// the same layout with //line directives in both declaring files
